@@ -24,10 +24,6 @@ Proof.
     pose proof (wf_nonempty k (Hk k Hin)). destruct k; [congruence|]. auto.
 Qed.
 
-Definition wf_config (cfg : config) : Prop :=
-  NoDup (map tpath cfg) /\
-  forall t, In t cfg -> wf_path (tpath t) /\ (forall u, In u (uses t) -> wf_path u) /\
-                        (forall i, In i (ignores t) -> wf_path i).
 
 Lemma wf_targets cfg : wf_config cfg -> forall k, In k (target_paths cfg) -> wf_path k.
 Proof. intros [_ H] k Hk. apply in_map_iff in Hk as (t & <- & Ht). apply H. exact Ht. Qed.
@@ -46,9 +42,6 @@ Proof.
 Qed.
 
 (* ---------- C10: edges ---------- *)
-Definition dep (t u : target) : Prop :=
-  tpath u <> tpath t /\
-  (inside (tpath t) (tpath u) = true \/ exists m, In m (uses t) /\ inside m (tpath u) = true).
 
 Lemma dep_b_spec t u : dep_b t u = true <-> dep t u.
 Proof.
@@ -427,4 +420,25 @@ Proof.
     repeat split; try (apply wf_path_b_spec; auto); intros; apply wf_path_b_spec; auto.
   - destruct (H2 t Ht) as (H3 & H4 & H5). rewrite !andb_true_iff, !forallb_forall.
     repeat split; try (apply wf_path_b_spec; auto); intros; apply wf_path_b_spec; auto.
+Qed.
+
+Theorem C01_all : forall k cfg changes, k > 0 -> wf_config cfg -> (forall p, In p changes -> wf_path p) ->
+    (forall t, In t cfg ->
+       (spec_changed true cfg changes t = true -> In (tpath t) (summary_k k cfg changes)) /\
+       (In (tpath t) (summary_k k cfg changes) -> spec_changed false cfg changes t = true)) /\
+    (forall z, In z (summary_k k cfg changes) -> In z (target_paths cfg)) /\
+    StronglySorted lex_lt (summary_k k cfg changes) /\
+    (forall z, In z (summary_k k cfg changes) <->
+       exists p brk r, In (p, brk) (breakdown cfg changes) /\ In (z, r) brk /\ r <> RIgnores) /\
+    (forall k' changes', k' > 0 -> (forall p, In p changes <-> In p changes') ->
+       summary_k k cfg changes = summary_k k' cfg changes').
+Proof.
+  intros k cfg changes Hk Hwf Hch. split; [|split; [|split; [|split]]].
+  - intros t Ht. split.
+    + intros H. apply C01_membership; auto.
+    + intros H. apply spec_band. apply (C01_membership k cfg changes t); auto.
+  - intros z Hz. apply summary_k_In in Hz as (p & Hp & Hz); auto. eapply analyze_change_targets; eauto.
+  - apply C01_sorted.
+  - intros z. apply C01_breakdown. exact Hk.
+  - intros k' changes' Hk' Hext. apply C01_order_independent; auto.
 Qed.
